@@ -16,126 +16,200 @@ from .runtime import conjuncts, facts_at
 ALREADY = f"{A.PLAN}.already_computed"
 
 
+def _edge_facts(cfg, src: int, dst: int):
+    """facts known when control goes src -> dst: the dominating branch conditions of src plus,
+    if src is itself a branch, the polarity of the edge taken"""
+    facts = list(facts_at(cfg, src))
+    n = cfg.nodes[src]
+    if n.kind in ("if", "while"):
+        for s_, lab in n.succ:
+            if s_ == dst and lab in ("true", "false", "body", "exit"):
+                facts += conjuncts(n.stmt.test, lab in ("true", "body"))
+    return facts
+
+
+def _is_complete_fact(t: ast.AST, pol: bool) -> bool:
+    if not (isinstance(t, ast.Compare) and len(t.ops) == 1):
+        return False
+    la, ra = attr_chain(t.left) or "", attr_chain(t.comparators[0]) or ""
+    if {la.rsplit(".", 1)[-1], ra.rsplit(".", 1)[-1]} != {"nchunks_initialized", "nchunks"} or la.rsplit(".", 1)[0] != ra.rsplit(".", 1)[0]:
+        return False
+    op = t.ops[0]
+    if isinstance(op, ast.Eq):
+        return pol
+    if isinstance(op, ast.NotEq):
+        return not pol
+    # initialised < total (false) / total > initialised (false) also establish equality
+    if isinstance(op, ast.Lt) and la.endswith("nchunks_initialized"):
+        return not pol
+    if isinstance(op, ast.Gt) and ra.endswith("nchunks_initialized"):
+        return not pol
+    return False
+
+
+def _is_nonzero_dim_fact(t: ast.AST, pol: bool) -> bool:
+    if not (isinstance(t, ast.Compare) and len(t.ops) == 1 and mentions_attr(t, "ndim")):
+        return False
+    c = t.comparators[0]
+    if not (isinstance(c, ast.Constant) and c.value == 0):
+        return False
+    op = t.ops[0]
+    return (isinstance(op, ast.Eq) and not pol) or (isinstance(op, (ast.NotEq, ast.Gt)) and pol)
+
+
 @rule("RESUME-ALL-1", props=["C09"], floor=5)
 def resume_all(ctx: Ctx) -> None:
-    """already_computed says "computed" only after *all* outputs were found complete; inside
-    the scan only falsy returns / raises occur; incompleteness, 0-d arrays, a missing array and
-    the create-arrays node count as not computed"""
+    """already_computed says "computed" only after *all* outputs were found complete; an output
+    counts as complete only if nchunks_initialized == nchunks and it is not zero-dimensional;
+    a missing array, the create-arrays node and storage that cannot report completeness are
+    never trusted"""
     repo = ctx.repo
     f = repo.get(ALREADY)
     cfg = cfg_of(f)
     fl = flow_of(repo, f)
-    # the scan loop over all successors
-    scans = [n for n in cfg.stmts(ast.For) if not n.loops and any(isinstance(c, ast.Call) and isinstance(c.func, ast.Attribute) and c.func.attr == "successors" for c in ast.walk(n.stmt.iter))]
-    ctx.need(len(scans) == 1, "the loop over the operation's outputs (dag.successors) was not found")
-    S = scans[0]
-    it = S.stmt.iter
-    whole = isinstance(it, ast.Call) and isinstance(it.func, ast.Attribute) and it.func.attr == "successors"
-    if not whole and isinstance(it, ast.Call) and isinstance(it.func, ast.Name) and it.func.id in ("list", "tuple", "sorted", "set") and len(it.args) == 1:
-        it = it.args[0]
-        whole = isinstance(it, ast.Call) and isinstance(it.func, ast.Attribute) and it.func.attr == "successors"
-    ctx.ob(f, S.stmt, whole, "the scan iterates all of dag.successors(<node>)" + ("" if whole else f" — it iterates `{unparse(S.stmt.iter, 50)}`"), sel="all:scan-loop")
-    ok = whole and len(it.args) == 1 and isinstance(it.args[0], ast.Name) and it.args[0].id == f.params[0]
-    ctx.ob(f, S.stmt, ok, "the scan covers the successors of the node under test", sel="all:scan-of-node")
-
-    def stops_false(start: int, avoid: set[int]) -> bool:
-        """from start, the scan is left through a falsy return / raise and never resumed"""
-        if S.id in cfg.reachable_from(start, avoid=avoid - {S.id}):
-            return False
-        return cfg.exits_only_to(start, avoid, lambda n: (is_falsy_return(n) and n is not None) or is_raise(n))
     pipe_names = {s.name for ss in fl.sites.values() for s in ss if s.value is not None and "pipeline" in subscript_keys(s.value)}
-    for r in cfg.returns():
-        if is_falsy_return(r):
-            continue
-        facts = facts_at(cfg, r.id)
-        no_pipeline = any(pol and isinstance(t, ast.Compare) and isinstance(t.ops[0], ast.Is) and isinstance(t.left, ast.Name) and t.left.id in pipe_names for t, pol in facts)
-        if no_pipeline:
-            ctx.ob(f, r.stmt, True, "truthy return for a node without pipeline (nothing to compute)", sel="all:return-no-pipeline", nontrivial=False)
-            continue
-        inside = cfg.in_loop(r.id, S.id)
-        after = all(cfg.all_paths_pass(cfg.entry, r.id, {x}) for x in cfg.edge_targets(S.id, "exit")) and bool(cfg.edge_targets(S.id, "exit"))
-        v = r.stmt.value
-        const_true = isinstance(v, ast.Constant) and v.value is True
-        ctx.ob(
-            f,
-            r.stmt,
-            (not inside) and after,
-            "a truthy return is reachable only after the scan over all outputs has completed"
-            + ("" if not inside else " — it sits inside the scan: one complete output would mark the whole operation computed"),
-            sel="all:return-after-scan",
-        )
-    # inside the scan: the incompleteness test
-    cmps = [n for n in f.own_nodes() if isinstance(n, ast.Compare) and mentions_attr(n, "nchunks_initialized")]
-    ok = False
-    msg = "an output counts as computed only if nchunks_initialized == nchunks"
-    if len(cmps) == 1:
-        c = cmps[0]
-        l, op, r_ = c.left, c.ops[0], c.comparators[0]
-        la, ra = attr_chain(l) or "", attr_chain(r_) or ""
-        pair = {la.rsplit(".", 1)[-1], ra.rsplit(".", 1)[-1]} == {"nchunks_initialized", "nchunks"} and la.rsplit(".", 1)[0] == ra.rsplit(".", 1)[0]
-        nid = cfg.node_of(c)
-        bn = cfg.nodes[nid]
-        if pair and bn.kind == "if":
-            # polarity under which the comparison says "incomplete"
-            if isinstance(op, ast.NotEq):
-                inc_pol = True
-            elif isinstance(op, ast.Eq):
-                inc_pol = False
-            elif isinstance(op, ast.Lt) and la.endswith("nchunks_initialized"):
-                inc_pol = True
-            elif isinstance(op, ast.Gt) and ra.endswith("nchunks_initialized"):
-                inc_pol = True
-            else:
-                inc_pol = None
-            if inc_pol is not None:
-                # where the test sits in the branch condition: `A or cmp` true-edge, or plain
-                test = bn.stmt.test
-                disj = test.values if isinstance(test, ast.BoolOp) and isinstance(test.op, ast.Or) else [test]
-                if any(x is c for x in disj) and inc_pol:
-                    tg = cfg.edge_targets(nid, "true")
-                    ok = bool(tg) and all(stops_false(t, {nid}) for t in tg)
-                elif test is c and not inc_pol:
-                    tg = cfg.edge_targets(nid, "false")
-                    ok = bool(tg) and all(stops_false(t, {nid}) for t in tg)
-        if not ok:
-            msg += f" — found `{unparse(c)}`"
+
+    def succ_derived(e: ast.AST, at: int, depth: int = 3) -> bool:
+        """expression ranges over all successors of the node under test"""
+        for c in ast.walk(e):
+            if isinstance(c, ast.Call) and isinstance(c.func, ast.Attribute) and c.func.attr == "successors" and len(c.args) == 1 and isinstance(c.args[0], ast.Name) and c.args[0].id == f.params[0]:
+                return not any(isinstance(x, ast.Subscript) and isinstance(x.slice, ast.Slice) for x in ast.walk(e))
+        if depth > 0:
+            for nm in [x for x in ast.walk(e) if isinstance(x, ast.Name)]:
+                for s in fl.rdefs(nm.id, at):
+                    if s.kind == "assign" and s.value is not None and not isinstance(s.value, ast.Call) or (s.kind == "assign" and isinstance(s.value, ast.Call) and isinstance(s.value.func, ast.Name) and s.value.func.id in ("list", "tuple")):
+                        v = s.value
+                        # filters may only drop outputs without a target
+                        if isinstance(v, (ast.ListComp, ast.GeneratorExp)):
+                            if not all(("is not None" in unparse(c_)) for g in v.generators for c_ in g.ifs):
+                                continue
+                        if succ_derived(v, s.node, depth - 1):
+                            return True
+        return False
+
+    # ---- the for-all shape ------------------------------------------------------------
+    scans = [n for n in cfg.stmts(ast.For) if not n.loops and succ_derived(n.stmt.iter, n.id)]
+    sliced = [n for n in cfg.stmts(ast.For) if not n.loops and "successors" in unparse(n.stmt.iter) and n not in scans]
+    H = f  # function holding the per-output test
+    hcfg, hfl = cfg, fl
+    computed_edges: list[tuple[int, int]] = []  # (src, dst) edges on which an output is accepted as complete
+    S = None
+    if len(scans) == 1:
+        S = scans[0]
+        ctx.ob(f, S.stmt, True, "the scan iterates all of dag.successors(<node>)", sel="all:scan-loop")
+        for r in cfg.returns():
+            if is_falsy_return(r):
+                continue
+            facts = facts_at(cfg, r.id)
+            if any(pol and isinstance(t, ast.Compare) and isinstance(t.ops[0], ast.Is) and isinstance(t.left, ast.Name) and t.left.id in pipe_names for t, pol in facts):
+                ctx.ob(f, r.stmt, True, "truthy return for a node without pipeline (nothing to compute)", sel="all:return-no-pipeline", nontrivial=False)
+                continue
+            inside = cfg.in_loop(r.id, S.id)
+            after = bool(cfg.edge_targets(S.id, "exit")) and all(cfg.all_paths_pass(cfg.entry, r.id, {x}) for x in cfg.edge_targets(S.id, "exit"))
+            ctx.ob(f, r.stmt, (not inside) and after, "a truthy return is reachable only after the scan over all outputs has completed" + ("" if not inside else " — it sits inside the scan: one complete output would mark the whole operation computed"), sel="all:return-after-scan")
+        for p in cfg.nodes[S.id].pred:
+            if cfg.in_loop(p, S.id):
+                computed_edges.append((p, S.id))
+    elif sliced:
+        ctx.ob(f, sliced[0].stmt, False, f"the scan must iterate all of dag.successors(<node>) — it iterates `{unparse(sliced[0].stmt.iter, 50)}`", sel="all:scan-loop")
+        return
     else:
-        msg += f" — found {len(cmps)} completeness comparisons"
-    ctx.ob(f, cmps[0] if cmps else f.node, ok, msg, sel="all:completeness-test")
-    # zero-dimensional arrays are never trusted
-    z = [n for n in f.own_nodes() if isinstance(n, ast.Compare) and mentions_attr(n, "ndim") and isinstance(n.ops[0], ast.Eq) and isinstance(n.comparators[0], ast.Constant) and n.comparators[0].value == 0]
-    okz = False
-    for c in z:
-        nid = cfg.node_of(c)
-        bn = cfg.nodes[nid]
-        if bn.kind == "if":
-            test = bn.stmt.test
-            disj = test.values if isinstance(test, ast.BoolOp) and isinstance(test.op, ast.Or) else [test]
-            if any(x is c for x in disj):
-                tg = cfg.edge_targets(nid, "true")
-                okz = bool(tg) and all(stops_false(t, {nid}) for t in tg)
-    ctx.ob(f, z[0] if z else f.node, okz, "a zero-dimensional output is treated as not computed", sel="all:zero-dim")
-    # missing array → not computed
-    hs = [n for n in cfg.nodes if n.kind == "except" and n.stmt.type is not None and "NotFound" in unparse(n.stmt.type)]
-    okh = bool(hs) and all(stops_false(h.id, set()) for h in hs)
-    ctx.ob(f, hs[0].stmt if hs else f.node, okh, "an output whose array does not exist is treated as not computed", sel="all:not-found")
-    # storage that cannot report completeness → explicit error
-    rs = [n for n in cfg.stmts(ast.Raise) if "NotImplementedError" in unparse(n.stmt.exc)]
+        # expression form: return all(<test>(t) for t in <all successors' targets>)
+        shape_ok = False
+        for r in cfg.returns():
+            if is_falsy_return(r):
+                continue
+            facts = facts_at(cfg, r.id)
+            if any(pol and isinstance(t, ast.Compare) and isinstance(t.ops[0], ast.Is) and isinstance(t.left, ast.Name) and t.left.id in pipe_names for t, pol in facts):
+                continue
+            v = r.stmt.value
+            if isinstance(v, ast.Constant):
+                ctx.ob(f, r.stmt, False, "an unconditional truthy return without a scan of all outputs", sel="all:return-after-scan")
+                continue
+            quant = v.func.id if isinstance(v, ast.Call) and isinstance(v.func, ast.Name) and v.func.id in ("all", "any") else None
+            gen = v.args[0] if quant and v.args and isinstance(v.args[0], (ast.GeneratorExp, ast.ListComp)) else None
+            ok = quant == "all" and gen is not None and succ_derived(gen.generators[0].iter, r.id) and all("is not None" in unparse(c_) for c_ in gen.generators[0].ifs)
+            ctx.ob(
+                f,
+                r.stmt,
+                ok,
+                "the operation counts as computed only if *all* of its outputs are complete"
+                + ("" if ok else f" — found `{unparse(v, 60)}`" + (": one complete output would mark the whole operation computed" if quant == "any" else "")),
+                sel="all:return-after-scan",
+            )
+            if gen is not None:
+                shape_ok = True
+                # the per-output test lives in the element expression / a helper it calls
+                el = gen.elt
+                helper = None
+                if isinstance(el, ast.Call):
+                    for t in repo.resolve_call(el, f, f.module):
+                        if t.kind == "def" and t.ref.is_func:
+                            helper = t.ref
+                if helper is not None:
+                    H, hcfg, hfl = helper, cfg_of(helper), flow_of(repo, helper)
+        ctx.need(shape_ok, "already_computed: neither a loop over the outputs nor an all()/any() over them was found")
+        ctx.ob(f, None, True, "expression form of the scan over all outputs", sel="all:scan-loop", nontrivial=False)
+    # ---- per-output acceptance: completeness and dimensionality established -------------
+    accept_points: list[tuple[list, ast.AST]] = []
+    if H is f and S is not None:
+        for src, dst in computed_edges:
+            facts = _edge_facts(cfg, src, dst)
+            # an output without target is skipped, not accepted
+            if any((pol and "target is None" in unparse(t)) or ((not pol) and "target is not None" in unparse(t)) for t, pol in facts):
+                continue
+            accept_points.append((facts, cfg.nodes[src].stmt))
+    else:
+        for r in hcfg.returns():
+            if is_falsy_return(r):
+                continue
+            facts = facts_at(hcfg, r.id)
+            v = r.stmt.value
+            if not isinstance(v, ast.Constant):
+                facts = facts + conjuncts(v, True)
+            accept_points.append((facts, r.stmt))
+    ctx.ob(H, None, bool(accept_points), "there is a path on which an output is accepted as complete", sel="all:accept-exists", nontrivial=False)
+    for facts, node in accept_points:
+        okc = any(_is_complete_fact(t, pol) for t, pol in facts)
+        okz = any(_is_nonzero_dim_fact(t, pol) for t, pol in facts)
+        ctx.ob(H, node, okc, "an output is accepted only where nchunks_initialized == nchunks is established" + ("" if okc else " — this path accepts it without that fact"), sel="all:completeness-test")
+        ctx.ob(H, node, okz, "a zero-dimensional output is never accepted as complete", sel="all:zero-dim")
+    # ---- missing array, incapable storage, create-arrays ----------------------------------
+    hs = [n for n in hcfg.nodes if n.kind == "except" and n.stmt.type is not None and "NotFound" in unparse(n.stmt.type)]
+
+    def only_reject(start: int) -> bool:
+        reach = hcfg.reachable_from(start)
+        if S is not None and H is f and S.id in reach:
+            return False  # would continue scanning = accept
+        return hcfg.exits_only_to(start, set(), lambda n: (n is not None and is_falsy_return(n)) or is_raise(n))
+
+    okh = bool(hs) and all(only_reject(h.id) for h in hs)
+    ctx.ob(H, hs[0].stmt if hs else None, okh, "an output whose array does not exist is treated as not computed", sel="all:not-found")
+    rs = [n for n in hcfg.stmts(ast.Raise) if "NotImplementedError" in unparse(n.stmt.exc)]
     okr = False
     for r in rs:
-        for t, pol in facts_at(cfg, r.id):
+        for t, pol in facts_at(hcfg, r.id):
             if not pol and isinstance(t, ast.Call) and isinstance(t.func, ast.Name) and t.func.id == "hasattr" and len(t.args) == 2 and isinstance(t.args[1], ast.Constant) and t.args[1].value == "nchunks_initialized":
                 okr = True
-    ctx.ob(f, rs[0].stmt if rs else f.node, okr, "storage without `nchunks_initialized` is refused with NotImplementedError", sel="all:cannot-report")
-    # create-arrays (no output has a target) → not computed
+    ctx.ob(H, rs[0].stmt if rs else None, okr, "storage without `nchunks_initialized` is refused with NotImplementedError", sel="all:cannot-report")
     okc = False
     for bn in cfg.stmts(ast.If):
         t = bn.stmt.test
-        if isinstance(t, ast.Call) and isinstance(t.func, ast.Name) and t.func.id == "all" and "target" in subscript_keys(t) and "successors" in unparse(t):
-            tg = cfg.edge_targets(bn.id, "true")
-            if tg and all(cfg.exits_only_to(x, {bn.id}, lambda n: is_falsy_return(n) and n is not None) for x in tg) and cfg.dominates(bn.id, S.id):
+        txt = unparse(t, 200)
+        is_none_all = isinstance(t, ast.Call) and isinstance(t.func, ast.Name) and t.func.id == "all" and "target" in subscript_keys(t) and "successors" in txt
+        is_empty = False
+        pol_edge = "true"
+        from ..astutil import nonempty_polarity
+
+        p_ = nonempty_polarity(t, lambda e: isinstance(e, ast.Name) and succ_derived(e, bn.id))
+        if p_ is not None:
+            is_empty = True
+            pol_edge = "false" if p_ else "true"
+        if is_none_all or is_empty:
+            tg = cfg.edge_targets(bn.id, pol_edge)
+            if tg and all(cfg.exits_only_to(x, {bn.id}, lambda n: n is not None and is_falsy_return(n)) for x in tg):
                 okc = True
-    ctx.ob(f, f.node, okc, "an operation none of whose outputs has a target (create-arrays) is always re-run", sel="all:create-arrays")
+    ctx.ob(f, None, okc, "an operation none of whose outputs has a target (create-arrays) is always re-run", sel="all:create-arrays")
 
 
 @rule("RESUME-MARK-1", props=["C09"], floor=4)
